@@ -25,7 +25,7 @@ PID = "C20"
 RULE = (
     "alphabet: kernel bodies with 1-2 integer ops from {addi, subi, muli} (+ andi, xori in thorough) over two data inputs with every routing (swapped operands, "
     "second op consuming the first on either side, an input used twice), and a three-input family; states = merge histories (quick: all of length <= 2 over "
-    "the full alphabet and length 3 over a 14-kernel sub-alphabet; thorough: length <= 3 full, <= 5 over 10 kernels), deduplicated by the printed abstract PE; "
+    "the full alphabet and length 3 over a 14-kernel sub-alphabet; thorough: the 5-op alphabet (360 kernels), all histories of length <= 2, length 3-4 over a 14-kernel sub-alphabet), deduplicated by the printed abstract PE; "
     "each state: decode every kernel of its history and evaluate on {-2,-1,0,1,2,3,7}^n. distinct = distinct abstract PEs; non-trivial = PE has >= 1 true switch"
 )
 ASSUMPTIONS = [
@@ -33,7 +33,7 @@ ASSUMPTIONS = [
     "kernels merged into one PE use the same number of data inputs (documented precondition of decode)",
     "i32 wrap-around arithmetic",
 ]
-BOUNDS = {"quick": dict(full_len=2, sub_len=3, sub_alphabet=14), "thorough": dict(full_len=3, sub_len=5, sub_alphabet=10)}
+BOUNDS = {"quick": dict(full_len=2, sub_len=3, sub_alphabet=14), "thorough": dict(full_len=2, sub_len=4, sub_alphabet=14)}
 CASE_TIMEOUT = 120
 BOX = [-2, -1, 0, 1, 2, 3, 7]
 OPS = {"addi": lambda a, b: a + b, "subi": lambda a, b: a - b, "muli": lambda a, b: a * b, "andi": lambda a, b: (a & 0xFFFFFFFF) & (b & 0xFFFFFFFF), "xori": lambda a, b: (a & 0xFFFFFFFF) ^ (b & 0xFFFFFFFF)}
